@@ -629,6 +629,24 @@ func (env *SpecEnv) call(n SCall) TV {
 	switch n.Fun {
 	case "old":
 		return env.inOld().eval(n.Args[0])
+	case "loopentry":
+		// loopentry(k, e): heap reads of e in the state in which loop k was entered
+		k, ok := n.Args[0].(SInt)
+		if !ok || len(n.Args) != 2 {
+			env.fail("loopentry(k, e): k must be a loop ordinal")
+		}
+		var ki int
+		fmt.Sscanf(k.V, "%d", &ki)
+		le := e.loopEntry[ki]
+		if le == nil {
+			env.fail("loopentry(%d, ...): loop %d has not been entered on this path", ki, ki)
+		}
+		ne := *env
+		if ne.locals == nil {
+			ne.locals = env.cur
+		}
+		ne.cur = le
+		return ne.eval(n.Args[1])
 	case "len":
 		v := arg(0)
 		switch x := v.V.(type) {
